@@ -73,6 +73,7 @@ Lemma of_nat_shiftl_pos k p : Z.shiftl (Z.of_nat k) (Zpos p) = Z.of_N (N.shiftl 
 Proof. rewrite <- nat_N_Z. apply of_N_shiftl_pos. Qed.
 Lemma of_nat_mul_pos k p : Z.of_nat k * Zpos p = Z.of_N (N.of_nat k * Npos p).
 Proof. rewrite N2Z.inj_mul, nat_N_Z. reflexivity. Qed.
+Lemma N_shiftl_mul a p : N.shiftl a (Npos p) = (a * 2 ^ Npos p)%N. Proof. apply N.shiftl_mul_pow2. Qed.
 (* source-level variants of the word index and the bit index: num / 64, num % 64 *)
 Lemma N_div64 a : (a / 64 = N.shiftr a 6)%N. Proof. rewrite N.shiftr_div_pow2. reflexivity. Qed.
 Lemma N_mod64 a : (a mod 64 = N.land a 63)%N. Proof. change 63%N with (N.ones 6). rewrite N.land_ones. reflexivity. Qed.
@@ -200,7 +201,9 @@ Ltac bool1 :=
   | |- context [?a =? ?b] => destruct (a =? b) eqn:?
   end.
 Ltac finish0 := try reflexivity; reflect; try lia; try (exfalso; intuition lia); try (repeat f_equal; lia).
-Ltac finish := finish0; repeat bool1; cbn [andb orb negb]; finish0.
+(* last resort for arithmetic leaves: shifts by literals as multiplications (len << 6 written as len * 64) *)
+Ltac arith := repeat f_equal; rewrite ?N_shiftl_mul, ?N2Z.inj_mul, ?nat_N_Z; cbn [N.pow Pos.pow Pos.iter Pos.mul]; lia.
+Ltac finish := finish0; repeat bool1; cbn [andb orb negb]; finish0; try arith.
 Ltac crush := intros; unfold_code; repeat step; finish.
 
 
@@ -339,6 +342,9 @@ Ltac inv_tac :=
 (* the whole proof for one bulk loop and one state shape *)
 Ltac bulk_proof f meas fl B ol fuel mk :=
   repeat autounfold with go2v; cbv beta zeta;
+  (* a loop bound computed before the loop (if len(o) < n { n = len(o) }) puts the loop under a conditional *)
+  unfold of_model; autorewrite with bz;
+  repeat match goal with |- (if ?c then _ else _) = _ => destruct c eqn:? end;
   let out := fresh "out" in let E := fresh "E" in let i' := fresh "i'" in
   match goal with |- context [while fuel ?c0 ?b0 ?p0 ?s0] =>
     destruct (while_rule c0 b0 p0 (bulk_inv f meas fl B ol _ mk) (bulk_post f B ol _ _ mk)) with (fuel := fuel) (m := meas B ol) (s := s0)
@@ -347,10 +353,10 @@ Ltac bulk_proof f meas fl B ol fuel mk :=
     let i := fresh "i" in let Hi := fresh "Hi" in let Hm := fresh "Hm" in let Hl := fresh "Hl" in let Hr := fresh "Hr" in
     let x := fresh "x" in let y := fresh "y" in let os := fresh "os" in let Hs := fresh "Hs" in let Hx := fresh "Hx" in
     let Hw' := fresh "Hw'" in
-    intros m s (done & bs & i & -> & Hi & Hm & Hl & Hw & Hr);
+    intros m s (done & bs & i & -> & Hi & Hm & Hl & Hw & Hr); try specialize (Hl eq_refl);
     destruct bs as [|x bs]; [|pose proof (Forall_inv Hw) as Hx; pose proof (Forall_inv_tail Hw) as Hw'; cbv beta in Hx];
     (destruct (skipn (length done) ol) as [|y os] eqn:Hs; [pose proof (skipn_nil_ge _ _ Hs)|pose proof (skipn_cons_lt _ _ _ _ Hs)]);
-    lunfold; repeat lstep; try (exfalso; reflect; cbn [length] in *; lia); try first [post_tac | inv_tac]
+    lunfold; repeat lstep; try (exfalso; reflect; rewrite ?app_length in *; cbn [length] in *; lia); first [post_tac | inv_tac]
   | exists [], B, 0; cbn [app length skipn]; repeat split; trivial
   | assumption
   | rewrite E; reflexivity ].
